@@ -38,7 +38,7 @@ field_type('BelongsTo', 'the_set', 'set[float]')
 # induction hypotheses (assumed abstract contracts of the virtual methods)
 contract(AUDIT, 'C12', verify=False, types=DB, returns=RET, modifies=[],
          raises={'BiogemeError': 'aud_raises(self, database)'},
-         ensures={'errors': 'seq_eq(result[0], aud_err(self, database))',
+         ensures={'errors': 'seq_eq(c12_errs(result), aud_err(self, database))',
                   'fresh': 'c12_fresh_lists(result)'},
          label='Expression.audit(abstract)',
          note='induction hypothesis: what audit returns on a sub-formula (deterministic; two new lists)')
@@ -48,6 +48,21 @@ contract(B + 'base_expressions.Expression.embed_expression', 'C12', verify=False
 contract(B + 'base_expressions.Expression.__repr__', 'C12', verify=False, pure=True, returns='str',
          ensures={'t': 'True'}, label='Expression.__repr__(abstract)',
          note='text of a sub-formula used in messages (deterministic, no side effect)')
+
+# (m5, round 3) Database.is_panel under a verified contract of its own: calls in specifications are then applied through
+# the contract.  Without it the method is INLINED, and inside a `raises` condition (evaluated in the entry state) the engine
+# resolves the inlined callee's `self` in the outer function's entry locals (wrong receiver; reported as a soundness incident).
+contract('biogeme.database.Database.is_panel', 'C12', pure=True, reads=['panelColumn'], returns='bool', modifies=[],
+         ensures={'def': 'result == (self.panelColumn is not None)'},
+         replay='''
+import warnings; warnings.simplefilter('ignore')
+import pandas as pd
+from biogeme.database import Database
+flat = Database('flat', pd.DataFrame({'x': [1.0, 2.0], 'id': [1, 1]}))
+panel = Database('panel', pd.DataFrame({'x': [1.0, 2.0], 'id': [1, 1]})); panel.panel('id')
+violated = flat.is_panel() is not False or panel.is_panel() is not True
+detail = f'is_panel(): flat {flat.is_panel()}, panel {panel.is_panel()}'
+''')
 
 REPLAY_TREE = '''
 import warnings; warnings.simplefilter('ignore')
@@ -75,12 +90,12 @@ NCH = 'aud_nerr(self.child, database)'
 # the entry heap, which the frame obligations (nothing that existed before the call is modified) need.
 WF1 = {'wf_node': 'len(self.children) == 1 and self.children[0] is self.child'}
 KEPT = {'fresh': 'c12_fresh_lists(result)',
-        'child_errors_included': f'c12_includes(result[0], {CH})'}
+        'child_errors_included': f'c12_includes(c12_errs(result), {CH})'}
 
 contract(U + 'PanelLikelihoodTrajectory.audit', 'C12', types=DB, returns=RET, modifies=[], requires=WF1,
          raises={'BiogemeError': 'aud_raises(self.child, database)'},
          ensures={**KEPT,
-                  'own_error_iff_not_panel': f'len(result[0]) == {NCH} + ite(database is None or not database.is_panel(), 1, 0)'},
+                  'own_error_iff_not_panel': f'len(c12_errs(result)) == {NCH} + ite(database is None or not database.is_panel(), 1, 0)'},
          replay=REPLAY_TREE + '''
 bad = Variable('missing')
 n_flat, e1 = own(PanelLikelihoodTrajectory(Variable('x')), flat)
@@ -95,7 +110,7 @@ contract(U + 'Integrate.audit', 'C12', types=DB, returns=RET, modifies=[], requi
          raises={'BiogemeError': 'aud_raises(self.child, database)'},
          ensures={**KEPT,
                   'own_error_iff_no_random_variable':
-                      f"len(result[0]) == {NCH} + ite(self.child.embed_expression('RandomVariable'), 0, 1)"},
+                      f"len(c12_errs(result)) == {NCH} + ite(self.child.embed_expression('RandomVariable'), 0, 1)"},
          replay=REPLAY_TREE + '''
 bad = Variable('missing')
 n_without, _ = own(Integrate(Variable('x'), 'omega'), flat)
@@ -107,7 +122,7 @@ detail = f'own errors: no random variable {n_without} (want 1), with one {n_with
 
 contract(U + 'BelongsTo.audit', 'C12', types=DB, returns=RET, modifies=[], requires=WF1,
          raises={'BiogemeError': 'aud_raises(self.child, database)'},
-         ensures={**KEPT, 'no_own_error': f'len(result[0]) == {NCH}'},
+         ensures={**KEPT, 'no_own_error': f'len(c12_errs(result)) == {NCH}'},
          replay=REPLAY_TREE + '''
 bad = Variable('missing')
 n_own, _ = own(BelongsTo(Variable('x'), {1, 2.5}), flat)
@@ -122,7 +137,7 @@ _MC_OWN = ("ite(database is not None and database.is_panel() and not self.child.
 contract(U + 'MonteCarlo.audit', 'C12', types=DB, returns=RET, modifies=[], requires=WF1,
          raises={'BiogemeError': 'aud_raises(self.child, database)'},
          ensures={**KEPT,
-                  'own_errors_iff_faults': f'len(result[0]) == {NCH} + {_MC_OWN}'},
+                  'own_errors_iff_faults': f'len(c12_errs(result)) == {NCH} + {_MC_OWN}'},
          replay=REPLAY_TREE + '''
 bad = Variable('missing')
 d = bioDraws('d', 'NORMAL')
@@ -145,8 +160,8 @@ _SUMN = 'aud_nerr_upto(self.children, database, LIM)'
 _INC = 'forall(lambda k: c12_includes(LST, aud_err(self.children[k], database)), 0, LIM)'
 _POS = 'aud_in_order(LST, self.children, database, LIM)'
 BASE_ENS = {'fresh': 'c12_fresh_lists(result)',
-            'every_child_errors_included': _INC.replace('LST', 'result[0]').replace('LIM', 'len(self.children)'),
-            'no_own_error': 'len(result[0]) == ' + _SUMN.replace('LIM', 'len(self.children)')}
+            'every_child_errors_included': _INC.replace('LST', 'c12_errs(result)').replace('LIM', 'len(self.children)'),
+            'no_own_error': 'len(c12_errs(result)) == ' + _SUMN.replace('LIM', 'len(self.children)')}
 BASE_RAISES = {'BiogemeError': 'exists(lambda k: aud_raises(self.children[k], database), 0, len(self.children))'}
 BASE_INV = {1: {'clauses': {
     'locals_are_new_lists': 'c12_fresh_lists((list_of_errors, list_of_warnings))',
@@ -217,7 +232,7 @@ contract(B + 'elementary_expressions.Variable.audit', 'C12', types=DB, returns=R
          requires={'wf_leaf': 'len(self.children) == 0'},
          raises={'BiogemeError': 'database is None'},
          ensures={'fresh': 'c12_fresh_lists(result)',
-                  'error_iff_column_absent': 'len(result[0]) == ite(self.name in database.data.columns, 0, 1)'},
+                  'error_iff_column_absent': 'len(c12_errs(result)) == ite(self.name in database.data.columns, 0, 1)'},
          replay=REPLAY_TREE + '''
 from biogeme.exceptions import BiogemeError
 n_known = len(Variable('x').audit(flat)[0]); n_unknown = len(Variable('missing').audit(flat)[0])
@@ -239,7 +254,7 @@ SEL = 'self.selected()[1]'
 contract(M + 'audit', 'C12', exact_self=False, types=DB, returns=RET, modifies=[],
          raises={'BiogemeError': f'aud_raises({SEL}, database)'},
          ensures={'fresh': 'c12_fresh_lists(result)',
-                  'errors_of_selected_member': f'seq_eq(result[0], aud_err({SEL}, database))'},
+                  'errors_of_selected_member': f'seq_eq(c12_errs(result), aud_err({SEL}, database))'},
          replay=REPLAY_TREE + '''
 from biogeme.catalog import Catalog
 from biogeme.expressions import NamedExpression
@@ -264,9 +279,9 @@ contract(B + 'logit_expressions.LogLogit.audit', 'C12', types=DB, returns=RET, m
          raises=BASE_RAISES,
          ensures={'fresh': 'c12_fresh_lists(result)',
                   'every_child_errors_included': BASE_ENS['every_child_errors_included'],
-                  'key_sets_rule': f'len(result[0]) >= {_N_ALL} + ite({_KEYS_DIFFER}, 1, 0)',
+                  'key_sets_rule': f'len(c12_errs(result)) >= {_N_ALL} + ite({_KEYS_DIFFER}, 1, 0)',
                   'invalid_specification_is_not_evaluated':
-                      f'implies({_INVALID}, len(result[0]) == {_N_ALL} + ite({_KEYS_DIFFER}, 1, 0))'},
+                      f'implies({_INVALID}, len(c12_errs(result)) == {_N_ALL} + ite({_KEYS_DIFFER}, 1, 0))'},
          invariants=LL_INV,
          replay=REPLAY_TREE + '''
 bad = Variable('missing')
